@@ -36,6 +36,8 @@ type expKeyModel struct {
 	deadline uint32 // unix seconds; 0 = never
 	lastCas  uint64
 	row      bool // some call on the key succeeded since the collection was created: a document or a tombstone is there
+	lives    int  // upper bound on how often the key has come to life, plus successful deletions of what was not (safely) alive: deletion events may not outnumber it
+	flagged  bool
 }
 
 func genExpScenario(rt *rapid.T) expScenario {
@@ -136,6 +138,8 @@ func runExpScenario(sc expScenario, windowSec int) (res expResult) {
 			}
 		}
 		t0 := nowSec()
+		// (safely alive: a write to a key within a second of its deadline may already be a re-creation)
+		safelyAlive := m.live && (m.deadline == 0 || now+1 < m.deadline)
 		var err error
 		newDeadline := func() uint32 {
 			if a.TTL <= 0 {
@@ -150,7 +154,11 @@ func runExpScenario(sc expScenario, windowSec int) (res expResult) {
 			if a.K == "ReAdd" {
 				// insert over a tombstone: the key is deleted first (no matter whether it existed)
 				if ds.Delete(a.Key) == nil {
+					if !safelyAlive {
+						m.lives++ // deleting a tombstone again may succeed, with an event (DESIGN 2.2)
+					}
 					m.live, m.deadline = false, 0
+					safelyAlive = false // (the Add that follows starts a new life)
 				}
 			}
 			var added bool
@@ -319,11 +327,17 @@ func runExpScenario(sc expScenario, windowSec int) (res expResult) {
 				err = ds.DeleteWithXattrs(ctx, a.Key, nil)
 			}
 			if err == nil {
+				if !safelyAlive {
+					m.lives++ // (a re-deletion: see ReAdd)
+				}
 				m.live, m.deadline = false, 0
 			}
 		case "Delete":
 			err = ds.Delete(a.Key)
 			if err == nil {
+				if !safelyAlive {
+					m.lives++
+				}
 				m.live, m.deadline = false, 0
 			}
 		case "Recreate":
@@ -380,6 +394,9 @@ func runExpScenario(sc expScenario, windowSec int) (res expResult) {
 		}
 		if err == nil && a.K != "Reopen" && a.K != "Recreate" {
 			m.row = true
+			if m.live && !safelyAlive {
+				m.lives++
+			}
 		}
 		res.log = append(res.log, fmt.Sprintf("+%dms %s %s/%s ttl=%d abs=%v -> err=%v deadline=%d live=%v", a.AtMs, a.K, cfg.Colls[a.C], a.Key, a.TTL, a.Abs, err, m.deadline, m.live))
 	}
@@ -393,6 +410,14 @@ func runExpScenario(sc expScenario, windowSec int) (res expResult) {
 			if err != nil && errClass(err) != "missing" {
 				bad("exp.read", "GetRaw(%s) failed: %v", ek.key, err)
 				continue
+			}
+			fmu.Lock()
+			nDel := len(delEvents[ek])
+			delCas := fmt.Sprintf("%x", delEvents[ek])
+			fmu.Unlock()
+			if nDel > m.lives && !m.flagged {
+				m.flagged = true
+				bad("exp.spurious", "%s/%q has come to life (or had a tombstone deleted again) at most %d time(s) but %d deletion events (CAS %s) were delivered for it: something that was not a live document expired", cfg.Colls[ek.c], ek.key, m.lives, nDel, delCas)
 			}
 			switch {
 			case m.live && (m.deadline == 0 || t1 < m.deadline):
